@@ -192,6 +192,9 @@ class FrpProp(Prop):
             if w and w[0] == "clone":
                 aliases[w[2]] = aliases.get(w[1], w[1])
             am = anns(m)
+            if "md" in am and "d" in anns(o) and am["md"] != anns(o)["d"]:
+                return ("HIDDEN: line %d (%s): the context's transaction depth is %s, the bracket machine of the specification is at "
+                        "depth %s" % (k + 1, lines[k] if k < len(lines) else "?", anns(o)["d"], am["md"]))
             if "uc" not in am:
                 continue
             comp = set(x for x in am["uc"].split(",") if x) - dropped
@@ -241,6 +244,9 @@ def W(**kw):
 
 class C01(FrpProp):
     pid = "C01"
+
+    def extra_oracle(self, lines, out):
+        return quiescence_oracle(lines, out)
     extra_props = ["Refine"]
     level_text = 'Theorems over the specification Spec/Sodium.v for ALL programs/histories: listener calls are produced only by the step that closes the outermost transaction (any nesting of closure and scoped brackets); that close calls each active listener exactly once iff its stream fires, with that value, and nobody else; listener keys stay distinct; the next transaction starts with no sends (no carry-over). Refine_history: on the static fragment the operational engine delivers exactly these calls. Tie: differential correspondence of the real library against the extracted specification on generated scripts with sends/listens/constructions at every position of nested brackets.'
     tag = "c01"
@@ -377,8 +383,31 @@ class C15(FrpProp):
                       n_txn=(4, 12), p_sample=0.5, p_post=0.2)
 
 
+def thunk_runs_oracle(lines, out):
+    """a user thunk (lazy_new) has run exactly once when it has been forced (through any clone), never more"""
+    user = set()
+    for k, l in enumerate(lines):
+        w = l.split()
+        if not w:
+            continue
+        if w[0] == "lazy_new":
+            user.add(w[1])
+        elif w[0] == "clone_lazy" and w[1] in user:
+            user.add(w[2])
+        elif w[0] == "sample_lazy":
+            user.discard(w[1])
+        elif w[0] == "force" and w[1] in user and k < len(out):
+            r = anns(out[k]).get("runs")
+            if r is not None and r != "1":
+                return "line %d (%s): the thunk of this Lazy has run %s times (must be exactly once after a force)" % (k + 1, l, r)
+    return None
+
+
 class C17(FrpProp):
     pid = "C17"
+
+    def extra_oracle(self, lines, out):
+        return thunk_runs_oracle(lines, out)
     level_text = "Theorems: operational model of lazy.rs (shared thunk/value cells): for any interleaving of new/clone/run the thunk is evaluated at most once and every run through every clone returns the same value; specification: a lazy taken by sample_lazy in transaction T denotes cur of the cell as of T however many transactions later it is forced, through clones, and hold_lazy starts from that value. The former known finding K3 (switch_c's initial thunk) has been repaired in /repo; its class predicate is kept, unlisted."
     tag = "c17"
     profile = Profile(w=W(hold_lazy=6, accum_lazy=4, map_c=8, lift=8, cloop=3, hold=6, switch_c=1), p_lazy=0.7, p_sample=0.3,
